@@ -235,26 +235,26 @@ def run(eng, run):
                         "MemoryError, KeyboardInterrupt, SystemExit are outside the exception universe",
                         "cbor2 and msgpack are not installed in this sandbox: their rows are the documented raise sets only"]
     summ = EscapeSummaries(eng)
-    check_escape(eng, run, summ)
-    check_conv(eng, run)
-    check_inc(eng, run, summ)
+    run.attempt(check_escape, eng, run, summ)
+    run.attempt(check_conv, eng, run)
+    run.attempt(check_inc, eng, run, summ)
     from sa.analyses.arms import check_dead_arms
-    check_dead_arms(eng, run, "C06.arms", ("serializers", "protocol", "lowlevel._stream"), 10)
+    run.attempt(check_dead_arms, eng, run, "C06.arms", ("serializers", "protocol", "lowlevel._stream"), 10)
     # after a parse error the consumer is reusable: the finished / dead parser never stays parked (typestate shared with C10.parser)
     from rules.c10 import check_parser
-    check_parser(eng, run, rule="C06.gen", dead_only=True)
+    run.attempt(check_parser, eng, run, rule="C06.gen", dead_only=True)
     # 'very long tokens up to the configured limit' end in a LimitOverrunError (a parse error), they do not grow the buffer for ever:
     # the accumulation guards of C07; and bytes beyond the received length never take part in the parse (bounded reads of C02)
     from rules import c02, c07
     from sa.report import RuleAlias
-    c07.check_guard(eng, RuleAlias(run, "C06.lim"))
-    c02.check_bound(eng, RuleAlias(run, "C06.lim"))
+    run.attempt(c07.check_guard, eng, RuleAlias(run, "C06.lim"))
+    run.attempt(c02.check_bound, eng, RuleAlias(run, "C06.lim"))
     # 'a parse error carrying the unread remainder': the remainder rules of C01 (every error / return site of the incremental
     # generators hands on exactly the unread bytes) and of C02/C07 (what a LimitOverrunError keeps, how far it has consumed)
     from rules import c01
-    c01.check_rem(eng, RuleAlias(run, "C06.rem"))
-    c02.check_lim(eng, RuleAlias(run, "C06.rem"))
-    c07.check_early(eng, RuleAlias(run, "C06.rem"))
+    run.attempt(c01.check_rem, eng, RuleAlias(run, "C06.rem"))
+    run.attempt(c02.check_lim, eng, RuleAlias(run, "C06.rem"))
+    run.attempt(c07.check_early, eng, RuleAlias(run, "C06.rem"))
     from sa.analyses.arms import check_handler_attrs
     from sa.analyses.escape import AttrResolver
     ar = AttrResolver(eng)
@@ -265,6 +265,7 @@ def run(eng, run):
     run.tables["external_callees_assumed_to_raise_nothing_input_dependent"] = sorted(summ.assumed_silent)
     run.tables["calls_without_resolved_target"] = sorted({n for v in summ.unresolved.values() for n in v})
     run.counters["calls_without_resolved_target"] = len(run.tables["calls_without_resolved_target"])
+    run.end_of_rules()
 
 
 # ---------------------------------------------------------------------------------------------- self-test corpus
